@@ -19,22 +19,26 @@ func e2eProp(id, dir string, bounds, outside []string) *Prop {
 		Obligs: func(tier string) []Oblig {
 			var r []Oblig
 			files, _ := filepath.Glob(filepath.Join(verifDir, "harness", dir, "*.go.txt"))
+			bound := 1000
+			if tier == "thorough" {
+				bound = 1 << 31 // every 32-bit input; the programs compute in 64-bit int with wrap-around
+			}
 			for k := range files {
-				r = append(r, Oblig{Harness: "vh_E2E", Unroll: 400, MaxPaths: 20000, Globals: map[string]int{"vhProgIdx": k}})
+				r = append(r, Oblig{Harness: "vh_E2E", Unroll: 400, MaxPaths: 20000, Globals: map[string]int{"vhProgIdx": k, "vhInputBound": bound}})
 			}
 			return r
 		},
 		Bounds:      bounds,
-		Assumptions: []string{"the parser step is replaced by trees dumped from the real front end on every run (TestVerifDumpAST) and rebuilt node by node", "the reference is the same text compiled as a twin package and executed by the engine under Go's own semantics (natively: the real compiled package)", "host functions A, B, Out are the only interface of a program"},
+		Assumptions: []string{"the parser step is replaced by trees dumped from the real front end on every run (TestVerifDumpAST) and rebuilt node by node", "the reference is the same text compiled as a twin package and executed by the engine under Go's own semantics (natively: the real compiled package)", "package host (inputs A, B; outputs Out; Str, Err, Sort, Read, Write, Copy taking interfaces) is the only interface of a program"},
 		Outside:     outside,
 	}
 }
 
 func init() {
 	props["C01"] = e2eProp("C01", "e2e_programs",
-		[]string{"the program texts of harness/e2e_programs, each for ALL values of its two integer inputs in (-1000, 1000)", "up to 400 solver decisions and 20 million executed SSA instructions per path"},
+		[]string{"the program texts of harness/e2e_programs, each for ALL values of its two integer inputs in (-1000, 1000) (quick) or (-2^31, 2^31) (thorough)", "up to 400 solver decisions and 20 million executed SSA instructions per path"},
 		[]string{"every program outside the corpus", "floats, goroutines and channels, fmt output, other input types", "the parser"})
 	props["C05"] = e2eProp("C05", "e2e_c05",
-		[]string{"the program texts of harness/e2e_c05 (method sets, value and pointer receivers, embedding to depth 3 with promoted and shadowed methods, method values, interfaces with overlapping method sets, one- and two-result assertions, type switches with concrete, interface, several-type, nil and default clauses, interface-typed fields and elements, interpreted values handed to compiled code as fmt.Stringer, error, sort.Interface, io.Reader, io.Writer), each for ALL values of its two integer inputs in (-1000, 1000)"},
+		[]string{"the program texts of harness/e2e_c05 (method sets, value and pointer receivers, embedding to depth 3 with promoted and shadowed methods, method values, interfaces with overlapping method sets, one- and two-result assertions, type switches with concrete, interface, several-type, nil and default clauses, interface-typed fields and elements, interpreted values handed to compiled code as fmt.Stringer, error, sort.Interface, io.Reader, io.Writer), each for ALL values of its two integer inputs in (-1000, 1000) (quick) or (-2^31, 2^31) (thorough)"},
 		[]string{"every type hierarchy outside the corpus (the property quantifies over random hierarchies: this is a bounded claim)", "method expressions (known finding of C01)", "generic types", "compiled interfaces other than the five the host package uses", "the parser"})
 }
